@@ -1260,6 +1260,12 @@ class Workflow(Trellis):
                     # when the node was given another role, e.g. because a detached node
                     # was recycled as the output of a step. There is nothing left to confirm.
                     continue
+                if cause == HashUpdateCause.EXTERNAL and old_state == FileState.UNDECLARED:
+                    # The watcher saw a file change whose node is detached and has no role,
+                    # e.g. a former match of a static pattern that a step still awaits.
+                    # There is no role to update: the glob patterns that match the path
+                    # make their steps pending, and a new declaration hashes the file.
+                    continue
                 raise_unexpected(path, old_state, new_fh)
             new_state, action = transition
             new_states_hashes.append((i, new_state, new_fh))
